@@ -22,3 +22,8 @@ def run(ck):
     sizes.fields_written_only_in_resize(ck, "C02.R5")
     pipeline.overflow_dispatch(ck, "C02.R6", "C03.R2", roles)
     funcs.results_through_funnel(ck, "C02.R7")
+    from . import dtype, ops, fresh
+    dtype.language_rules(ck, "C12.R1", "C12.R2")      # "spells exactly that format in its dtype string"
+    sizes.no_size_rejection(ck, "C02.R8")
+    ops.unary_ops(ck, "C08.R6")                        # operator results are rebuilt through the constructor
+    fresh.returned_objects_fresh(ck, "C20.R1")
